@@ -451,13 +451,26 @@ def rendering_typestate(ctx: Ctx):
     body = SUMMARIZER.summarize(m.node)
     # `self._order` is produced by the collators with `self._format` (possibly BOGUS): comparing its items with 0 is a
     # use after rendering
+    def conjuncts(c: ast.expr):
+        """Ordered conjuncts of a filter: `a and b` -> [a, b]; `not (a or b)` -> [not a, not b] (short-circuit order kept)."""
+        if isinstance(c, ast.BoolOp) and isinstance(c.op, ast.And):
+            return [x for v in c.values for x in conjuncts(v)]
+        if isinstance(c, ast.UnaryOp) and isinstance(c.op, ast.Not) and isinstance(c.operand, ast.BoolOp) and isinstance(c.operand.op, ast.Or):
+            return [x for v in c.operand.values for x in conjuncts(ast.UnaryOp(op=ast.Not(), operand=v))]
+        return [c]
+
     cmp_after = []
     for comp in (n for n in ast.walk(body) if isinstance(n, ast.comprehension)):
         for cond in comp.ifs:
-            cmps = [u(n) for n in ast.walk(cond) if isinstance(n, ast.Compare) and u(n.left) == "idx" and any(isinstance(c, ast.Constant) and c.value == 0 for c in n.comparators)]
-            guarded = isinstance(cond, ast.BoolOp) and isinstance(cond.op, ast.And) and u(cond.values[0]) in ("not isinstance(idx, str)", "isinstance(idx, int)")
-            if cmps and not guarded:
-                cmp_after += cmps
+            type_checked = False
+            for part in conjuncts(cond):
+                t = u(part)
+                if t in ("not isinstance(idx, str)", "isinstance(idx, int)", "not isinstance(idx, (str,))"):
+                    type_checked = True
+                    continue
+                cmps = [u(n) for n in ast.walk(part) if isinstance(n, ast.Compare) and u(n.left) == "idx" and any(isinstance(c, ast.Constant) and c.value == 0 for c in n.comparators)]
+                if cmps and not type_checked:
+                    cmp_after += cmps
     order_fmt = _order_uses_format(ctx)
     where = "matrix/assembler.py::_BaseOrderHelper._display_order"
     if cmp_after and order_fmt:
